@@ -1,2 +1,3 @@
-#include <stddef.h>
+#include "contracts/valid.h"
 size_t g_k; /* ghost index: "the element at an arbitrary position" */
+struct verif_snap_ghost g_s;
